@@ -687,3 +687,71 @@ _targets_before_area = targets
 
 def targets():      # noqa: F811
     return _targets_before_area() + [target_peak_area()]
+
+
+
+def target_lm_views():
+    """LMResult views: the resistive-capacitive part is the points with gamma >= 0, the resistive-inductive part the points with
+    gamma < 0 (reported with |gamma|) -- and the time constants of each part are selected with the SAME index set as its gammas, so
+    every (tau_k, R_k) pair the Loewner method recovered stays a pair in get_drt_data / get_gammas.  Real properties and methods
+    on recording arrays (a comparison gives a named condition, argwhere(...).flatten() an index set, x[index set] a selection)."""
+    def run(sess: Session):
+        class Cond:
+            def __init__(self, what):
+                self.what = what
+
+        class Idx:
+            def __init__(self, cond):
+                self.cond = cond
+
+            def flatten(self):
+                return self
+
+        class Arr:
+            def __init__(self, name):
+                self.name = name
+
+            def __ge__(self, o):
+                return Cond((self.name, ">=", o))
+
+            def __lt__(self, o):
+                return Cond((self.name, "<", o))
+
+            def __gt__(self, o):
+                return Cond((self.name, ">", o))
+
+            def __le__(self, o):
+                return Cond((self.name, "<=", o))
+
+            def __getitem__(self, k):
+                if isinstance(k, Idx):
+                    return ("sel", self.name, k.cond.what)
+                if isinstance(k, Cond):
+                    return ("sel", self.name, k.what)
+                raise O.Unsupported("array indexed by something other than an index set")
+        ns = {"argwhere": lambda c: Idx(c) if isinstance(c, Cond) else (_ for _ in ()).throw(O.Unsupported("argwhere of something else")),
+              "abs": lambda x: ("abs", x), "absolute": lambda x: ("abs", x), "int64": None, "float64": None}
+        names = ["LMResult._resistive_capacitive_time_constants", "LMResult._resistive_capacitive_gammas", "LMResult._resistive_inductive_time_constants",
+                 "LMResult._resistive_inductive_gammas", "LMResult.get_gammas", "LMResult.get_drt_data"]
+        O.load(LM, names, ns)
+        props = {n.split(".")[1]: ns[n.split(".")[1]] for n in names[:4]}
+
+        class Me:
+            time_constants, gammas = Arr("tau"), Arr("gamma")
+        for k, f in props.items():
+            setattr(Me, k, property(f))
+        me = Me()
+        rc, rl = ("gamma", ">=", 0.0), ("gamma", "<", 0.0)
+        want = (("sel", "tau", rc), ("sel", "gamma", rc), ("sel", "tau", rl), ("abs", ("sel", "gamma", rl)))
+        sess.check("post", [], z3.BoolVal(tuple(ns["get_drt_data"](me)) == want), 0, label="get_drt_data == (tau[gamma>=0], gamma[gamma>=0], tau[gamma<0], |gamma[gamma<0]|)")
+        sess.check("post", [], z3.BoolVal(tuple(ns["get_gammas"](me)) == (want[1], want[3])), 0, label="get_gammas == (gamma[gamma>=0], |gamma[gamma<0]|)")
+        for k, w in zip(props, want):
+            sess.check("post", [], z3.BoolVal(getattr(me, k) == w), 0, label=f"{k}: selected with the index set of its own part")
+    return (f"{LM}:LMResult.get_drt_data / get_gammas", LM, "LMResult.get_drt_data", run)
+
+
+_targets_before_lm_views = targets
+
+
+def targets():      # noqa: F811
+    return _targets_before_lm_views() + [target_lm_views()]
